@@ -11,7 +11,9 @@
    The float kind is specified by Flocq's IEEE-754 binary64 operations (round to nearest even); `%` on
    floats by F_rem (NumDefs.v).  The ORIGINAL code is characterised by C05_orig_exact_except with the three
    known classes K1-K3 and one refutation witness per class. *)
-From MS Require Import Num.NumImpl Num.NumSpec Num.NumProofs.
+From Coq Require Import Reals.
+From Flocq Require Import Core.Core.
+From MS Require Import Num.NumImpl Num.NumSpec Num.NumProofs Num.NumFloat.
 
 (* all 16 binary operators x 16 kind pairs x all values *)
 Check binop_fixed : forall op a b, wf a -> wf b -> is_num a -> is_num b ->
@@ -63,6 +65,26 @@ Check orig_neg_wrap_refuted :
   wf (Int (-2147483648)) /\ spec_neg (Int (-2147483648)) = Undefined /\
   negate (Orig Wrap) (Int (-2147483648)) = Ok (Int (-2147483648)).
 
+(* the two float primitives defined by this development mean what the property says:
+   `%` on doubles is the exact fmod (sign of the dividend), int -> double is round-to-nearest-even *)
+Check F_rem_correct : forall x y : float,
+  is_finite x = true -> is_finite y = true -> B2R y <> 0%R ->
+  is_finite (F_rem x y) = true /\
+  B2R (F_rem x y) = (B2R x - IZR (Ztrunc (B2R x / B2R y)) * B2R y)%R.
+Theorem C05_float_rem_is_fmod : forall x y : float,
+  is_finite x = true -> is_finite y = true -> B2R y <> 0%R ->
+  is_finite (F_rem x y) = true /\
+  B2R (F_rem x y) = (B2R x - IZR (Ztrunc (B2R x / B2R y)) * B2R y)%R.
+Proof. exact F_rem_correct. Qed.
+
+Check F_of_Z_correct : forall z, (Z.abs z <= 2 ^ 127)%Z ->
+  is_finite (F_of_Z z) = true /\
+  B2R (F_of_Z z) = round radix2 (SpecFloat.fexp 53 1024) ZnearestE (IZR z).
+Theorem C05_int_to_double_rounds : forall z, (Z.abs z <= 2 ^ 127)%Z ->
+  is_finite (F_of_Z z) = true /\
+  B2R (F_of_Z z) = round radix2 (SpecFloat.fexp 53 1024) ZnearestE (IZR z).
+Proof. exact F_of_Z_correct. Qed.
+
 (* non-vacuity: the specification defines results (promotion, exactness, IEEE) and demands failures *)
 Example C05_promotes : spec_binop (Arith Mul) (Byte 200) (Big 170141183460469231731687303715884105)
                        = Exact (Big 34028236692093846346337460743176821000).
@@ -99,3 +121,5 @@ Print Assumptions C05_binop_kind.
 Print Assumptions C05_neg_exact.
 Print Assumptions C05_not_exact.
 Print Assumptions C05_orig_exact_except.
+Print Assumptions C05_float_rem_is_fmod.
+Print Assumptions C05_int_to_double_rounds.
